@@ -93,7 +93,16 @@ impl CellBuffer {
     pub(crate) fn get_size(&self, settings: &Settings) -> (f32, f32) {
         let (_top_left, bottom_right) =
             self.bounds().unwrap_or((Cell::new(0, 0), Cell::new(0, 0)));
-        let w = settings.scale * (bottom_right.x + 2) as f32 * Cell::width();
+        // a double-width character also occupies the column next to its cell
+        let right_most_x = self
+            .iter()
+            .map(|(cell, ch)| {
+                let columns = UnicodeWidthChar::width(*ch).unwrap_or(1).max(1);
+                cell.x + columns as i32 - 1
+            })
+            .max()
+            .unwrap_or(0);
+        let w = settings.scale * (right_most_x + 2) as f32 * Cell::width();
         let h = settings.scale * (bottom_right.y + 2) as f32 * Cell::height();
         (w, h)
     }
